@@ -10,7 +10,8 @@ REG = load_contracts('C17')
 ENV = spec_env('specs.c17')
 F = 'pydoctor/sphinx.py'
 SMALL = ['a', '1', '', 'py:x', '-']
-TOKS = ['a', 'b.c', '1', '-1', 'py:function', 'x', '', '+3', '0x1', '7', '-', 'std:label', '$', 'py:class', 'u.html#x']
+TOKS = ['a', 'b.c', '1', '-1', 'py:function', 'x', '', '+3', '0x1', '7', '-', 'std:label', '$', 'py:class', 'u.html#x',
+        'caf%C3%A9', '%s', '100%', '%(x)s']
 SPECIAL = ['\t', 'a\tb 1 c d', 'a b 1', 'a b 1 c', 'a b 1 c d', 'a b c 1 d e', 'mod.C 0.m 0 py:method -1 u -',
            'a  b 1 c d', 'ü py:class 1 u -', '1 2 3 4 5', 'a b ١ c d', 'a b 1_0 c d', 'a b  1  c d', '  1', 'a py:x 1 u -']
 
@@ -48,11 +49,13 @@ def _inv():
 
 
 def _payload_cases(tier, seed):
-    lines = ['a py:x 1 u -', 'b std:label 1 u -', 'broken', 'a b 1', '', 'c py:y -1 v$ d d', 'a py:x 2 w -', 'x y z', '1 2 3']
+    lines = ['a py:x 1 u -', 'b std:label 1 u -', 'broken', 'a b 1', '', 'c py:y -1 v$ d d', 'a py:x 2 w -', 'x y z', '1 2 3',
+             'caf%C3%A9 broken%s']
     maxn = 3 if tier == 'quick' else 4
     for n in range(0, maxn + 1):
         for combo in itertools.product(lines, repeat=n):
             yield {'base_url': 'http://h/b', 'payload': '\n'.join(combo)}
+    yield {'base_url': 'http://h/caf%C3%A9', 'payload': 'broken\na py:x 1 u -'}
     rnd = random.Random(seed + 1)
     for _ in range(300 if tier == 'quick' else 5000):
         ls = [' '.join(rnd.choice(TOKS) for _ in range(rnd.randint(0, 7))) for _ in range(rnd.randint(0, 6))]
@@ -105,7 +108,7 @@ class _Cache:
 
 def _update_cases(tier, seed):
     for c in _bytes_cases(tier, seed):
-        for url in ('http://h/objects.inv', 'nourl'):
+        for url in ('http://h/objects.inv', 'nourl', 'http://h/caf%C3%A9/objects.inv', '100%'):
             yield {'url': url, 'data': c['data']}
     yield {'url': 'http://h/objects.inv', 'data': None}
 
@@ -162,16 +165,21 @@ def _check_gencontent(case):
                         {'subjects': subs}, ENV, ghosts={'errors': lambda: log.errors})
 
 
+ACME = [('acme', '"""Root."""\n', True), ('acme.acme', 'class acme:\n    def acme(self): pass\n', False),
+        ('acme.other', 'def f(): pass\n', False)]
+
+
 def _roundtrip_cases(tier, seed):
     for k in range(len(fixtures.PRIVACY_SETS)):
         yield {'privacy': k}
+    yield {'project': 'acme'}
 
 
 def _check_roundtrip(case):
     """end to end on real objects: generate -> parse; exactly one entry per visible object reachable from the
     roots, mapping its qualified name to its url (statement of C17, for pydoctor's own reader)"""
     from pydoctor import sphinx
-    s = _system(case['privacy'])
+    s = fixtures.build_system(ACME) if case.get('project') == 'acme' else _system(case['privacy'])
     w, _ = _writer()
     content = w._generateContent(s.rootobjects).decode('utf-8')
     inv, log = _inv()
@@ -195,6 +203,22 @@ def _check_roundtrip(case):
                 'required': 'exactly one entry per visible documented object, name -> (base, url)'}
     if len(content.splitlines()) != len(want):
         return {'observed': f'{len(content.splitlines())} lines for {len(want)} visible objects', 'required': 'one line per object'}
+    # "the page and anchor where it is documented": two different objects never share a page, an anchor names its object
+    from pydoctor import model
+    pages = {}
+    for name, (_, url) in got.items():
+        o = s.allobjects[name]
+        if o.documentation_location is model.DocLocation.OWN_PAGE:
+            if '#' in url:
+                return {'observed': f'{name} (own page) -> {url}', 'required': 'a page without fragment'}
+            if url in pages:
+                return {'observed': f'{name} and {pages[url]} are both mapped to {url}', 'required': 'one page per documented module/class',
+                        'class': 'shared-page'}
+            pages[url] = name
+        else:
+            page, _, frag = url.partition('#')
+            if frag != o.name or page != got[o.parent.fullName()][1]:
+                return {'observed': f'{name} -> {url}', 'required': f'{got[o.parent.fullName()][1]}#{o.name}', 'class': 'anchor'}
     return None
 
 
@@ -210,6 +234,7 @@ HARNESS = {
     f'{F}:_parseInventoryLine': {'cases': _line_cases, 'check': _check_line,
         'bound': 'all space-joined token lists of length <= 5 (6 thorough) over 5 tokens + 2000 (20000) random lines over 15 tokens'},
     f'{F}:SphinxInventory._parseInventory': {'cases': _payload_cases, 'check': _check_payload,
+        'covers': [f'{F}:SphinxInventory.error', f'{F}:SphinxInventoryWriter.error'],
         'bound': 'all payloads of <= 3 (4) lines over 9 line shapes + 300 (5000) random payloads'},
     f'{F}:SphinxInventory._getPayload': {'cases': _bytes_cases, 'check': _check_getpayload,
         'bound': '15 hand-picked byte strings + 200 (3000) byte-level mutations of a valid inventory'},
